@@ -38,6 +38,10 @@ def evaluate(sid, run_tests=True, extra_checks=None):
         res['demo_clean_exit'] = c.returncode
         a = sh('git -C %s apply %s' % (wt, os.path.join(d, 'patch.diff')))
         if a.returncode:
+            # /repo has moved on since the change was written (fix: commits): fall back to a 3-way merge of the patch
+            a = sh('git -C %s apply --3way %s' % (wt, os.path.join(d, 'patch.diff')))
+            res['applied_with_3way'] = a.returncode == 0
+        if a.returncode:
             res['error'] = 'patch does not apply: ' + a.stderr[-300:]
             return res
         c = sh('cd %s && /venv/bin/python _demo.py' % wt, timeout=600)
